@@ -876,7 +876,7 @@ pub fn c18() -> EngineProp {
         monitors: m18_all,
         nontrivial: nt18,
         quick_cases: 2000,
-        thorough_cases: 40_000,
+        thorough_cases: 8_000,
         rule: "EngineSim histories with ack timeouts in {none,0,1,50,1000 ms}, clock advances of 0/1/49/50/51/999/1000/1500 ms and jumps to / just before / past the reported next-service time, multi-write packets, QoS2 handshakes, retry limits N in {0,1,2,5} and sequences of closes interleaved with partial progress; non-trivial = an ack timeout fired, or the retry limit was hit, or an operation was transmitted on >= 2 connections under a retry limit; distinct = abstracted event history hash",
         directed: no_directed,
         fixup: common_fix,
